@@ -11,7 +11,8 @@ from vlib.common import *
 from checks.C15 import _absorb
 
 NEG = [("SortSignedAttrs", "SignedPartsSame"), ("NoSignerRaw", "SignedPartsSame"), ("DropUnparsableCert", "SignedPartsSame"),
-       ("DoubleDigestAttr", "MandatoryAttrsOnce"), ("ReencodeContent", "SignedPartsSame"), ("DetachAsData", "SignedPartsSame")]
+       ("DoubleDigestAttr", "MandatoryAttrsOnce"), ("ReencodeContent", "SignedPartsSame"), ("DetachAsData", "SignedPartsSame"),
+       ("ShortFormAt128", ("DigestedAsEmitted", "RefuseOnlyWhenJustified"))]
 
 
 def _shard(vh, behs, i, n):
@@ -35,6 +36,14 @@ def run(t):
     for v, inv in NEG:
         tlc_must_fail(run_tlc("Cms_MC", f"Cms_Neg_{v}.cfg", timeout=300, want_beh=False, workers=4), v, expect=inv)
     run.cov["negative_controls"] = [v for v, _ in NEG]
+    r = run_tlc("Cms_MC", "Cms_MC_Len.cfg", timeout=300, want_beh=False, workers=4)
+    tlc_must_pass(r, "Cms_MC_Len")
+    run.add_tlc(r, "Cms mc, signed-attribute lengths at the DER length-form boundaries (108 shapes x 5 operations)")
+    gl = run_tlc("Cms_Gen", "Cms_Gen_Len.cfg", timeout=300, workers=4)
+    tlc_must_pass(gl, "Cms_Gen_Len")
+    run.add_tlc(gl, "Cms gen (lengths)")
+    if len(gl.beh) != 540:
+        raise NoVerdict(f"{len(gl.beh)} length behaviours, expected 540")
     g = run_tlc("Cms_Gen", "Cms_Gen.cfg", timeout=900)
     tlc_must_pass(g, "Cms_Gen")
     run.add_tlc(g, "Cms gen")
@@ -44,7 +53,7 @@ def run(t):
     shards = 8
     per = 900 if t == "quick" else 10 ** 6
     random.Random(seed()).shuffle(behs)
-    parts = [behs[i::shards] for i in range(shards)]
+    parts = [gl.beh[i::shards] + behs[i::shards] for i in range(shards)]   # the 1080 length behaviours are always replayed, first
     with cf.ThreadPoolExecutor(shards) as ex:
         outs = list(ex.map(lambda iv: _shard(vh, iv[1], iv[0], per), enumerate(parts)))
     nrun = 0
@@ -63,14 +72,23 @@ def run(t):
     _absorb(run, o)
     if o["counters"].get("own_with_attrs", 0) < 10 and not run.violations:
         raise NoVerdict(f"own outputs: {o['counters']}")
-    run.cov["rule"] = (f"{nrun} of {len(behs)} (shape, operation) behaviours (seeded sample in quick, all in thorough; non-DER shapes, which must simply be "
+    d = scratch("c16l")
+    try:
+        o = parse_vh_json(run_vh(vh, ["cms-attrlen"], env={"VERIF_TMP": d}, timeout=900), "cms-attrlen")
+    finally:
+        shutil.rmtree(d, ignore_errors=True)
+    _absorb(run, o)
+    if o["counters"].get("boundary_lengths", 0) < 6 and not run.violations:
+        raise NoVerdict(f"attribute lengths: {o['counters']}")
+    run.cov["attr_lengths"] = o["counters"]
+    run.cov["rule"] = (f"{nrun} of {len(behs) + len(gl.beh)} (shape, operation) behaviours (seeded sample in quick, all in thorough; non-DER shapes, which must simply be "
                        "refused, capped at a tenth of a sample): shape = signed-attribute order x certificates 0..2 x opaque extra certificate x CRL x "
                        "TSA key RSA/ECDSA/RSA-PSS x digest parameters NULL/absent x signing time UTC/Generalized/none x multi-valued attribute x nested "
                        "unsigned token x digest-algorithm SET one/sorted/unsorted x DER/long-form/indefinite lengths x content octets plain / themselves shaped like an OCTET STRING; operations RoundTrip, Detach, Embed "
                        "(real NewRequest/ParseResponse/TimestampAndMarshal, CMS and Authenticode attribute, with and without the cache's "
                        "marshal/unmarshal), EmbedDetach, Resign (catalog signer). Per part: byte equality as the model predicts; canonical DER values "
                        "must re-encode to themselves entirely; third-party and relic signatures re-verified over the emitted bytes; openssl cms "
-                       "-verify on 1/16 of the cases; 32 CMS values relic writes itself (9 types x 2 keys x 2 digests) re-encode to themselves. "
+                       "-verify on 1/16 of the cases; third-party values whose signed attributes take exactly 127, 128, 129, 255, 256, 257 bytes (x order x key x time form, all five operations, always replayed) and relic-built signer infos with every attribute length from about 80 to 300 bytes, verified over the attributes as emitted; 32 CMS values relic writes itself (9 types x 2 keys x 2 digests) re-encode to themselves. "
                        "non-trivial = shape with at least one non-default feature")
     run.cov["exhaustive"] = t != "quick"
     run.assumptions += ["SHA-256 tokens; one signer info per value; signer identified by issuer and serial (subjectKeyIdentifier signer infos "
